@@ -158,7 +158,8 @@ def run_unit(unit_name, extra_args=(), keep=True, inject=None, inject_false=None
             rec['class'] = 'undecided'; res['errors'].append(rec); continue
         hit = []
         for s in spans:
-            hit += labels_at(s['line_start'], s['line_end']) if s['line_end'] - s['line_start'] < 3 else []
+            # a clause's span starts inside its label's line range; big spans (whole bodies) start elsewhere
+            hit += labels_at(s['line_start'], s['line_start'])
         obls = []
         if hit:
             for l in hit:
